@@ -35,7 +35,10 @@ ASSUMPTIONS = ['NumPy order of keys: NaN / NaT after every other value (complex:
                'strings and bytes by code point, object cells by Python comparison; key columns hold mutually comparable cells '
                '(object key columns without None/NaN), other columns hold anything',
                'a hierarchical index cannot hold a non-tree label order in this version: when the reference arrangement of a '
-               'hierarchical axis is not tree-shaped (only possible with a key function) ErrorInitIndex is the expected outcome',
+               'hierarchical axis is not tree-shaped (key function on the index, or sort_values over a hierarchical axis), or when the '
+               'Frame handed to a sort_values key function would carry a non-tree selection of hierarchical labels, ErrorInitIndex is '
+               'the expected outcome (counted under breakdown.outcome, never as held-by-default: the arrangement is still compared '
+               'when the library returns)',
                'only the default sort kind (or an explicitly stable kind) is used, as in the statement',
                '`ascending` is a single bool in this version (a per-key list is not part of the interface)']
 TIERS = {'quick': {'shards': 8, 'budget_s': 120, 'min_nontrivial': 4000},
@@ -549,7 +552,7 @@ def _frame_values_axis0(rng):
 def generate(ctx):
     rng = ctx.rng
     per_spec = 2 if ctx.tier == 'quick' else 3
-    for _ in range(ctx.n(32000, 420000)):
+    for _ in range(ctx.n(26000, 300000)):
         r = rng.random()
         if r < 0.17:
             yield _series_case(rng, 'series.sort_values')
